@@ -78,8 +78,7 @@ def register(reg):
                  types={'token': 'opt[Token]'},
                  loops={0: dict(inv=['state.lexer is old(state.lexer)',
                                      'implies(_i0 == 0, token is last_token)',
-                                     'implies(_i0 >= 1, token is _s0[_i0 - 1])',
-                                     'all(%s for j in range(0, _i0))' % ' and '.join('_s0[j].%s == old(_s0[j].%s)' % (f, f) if False else 'True' for f in POS[:1])])},
+                                     'implies(_i0 >= 1, token is _s0[_i0 - 1])'])},
                  names={'Token.new_borrow_pos': ('contract', 'Token.new_borrow_pos'), 'Token': ('class', 'Token'), 'InteractiveParser': ('class', 'InteractiveParser'),
                         'UnexpectedInput': ('class', 'UnexpectedInput'), 'NameError': ('class', 'NameError')},
                  replay=_replay)
